@@ -76,6 +76,10 @@ func c04Eval(coll c04Coll, form c04Form, varName string, withElse bool, rootKind
 		data = rootT{Xs: m["xs"], Name: outerVal, Outer: "O", Yes: true, Item: outerVal}
 	}
 	res := renderPage(map[string]string{"p.vuego": tpl}, "p.vuego", data)
+	// not sent to the model: map iteration order (maps), and interface-typed struct fields holding structs (the Val encoding has no static field type)
+	if coll.name != "maps" && coll.name != "structs" && coll.name != "floats" && !(coll.name == "struct" && rootKind == "struct") {
+		pendingPages = append(pendingPages, pageCase("loop", map[string]string{"p.vuego": tpl}, nil, "p.vuego", data, "form:"+form.name))
+	}
 	c := &Case{Name: fmt.Sprintf("%s over %s var %s else=%v root=%s", form.name, coll.name, varName, withElse, rootKind),
 		Input: map[string]any{"coll": coll.name, "form": form.name, "var": varName, "else": withElse, "root": rootKind, "tpl": tpl}, Impl: res.canon(), Oracle: &Verdict{OK: true},
 		Tags: []string{"form:" + form.name, "coll:" + coll.name, "root:" + rootKind}}
@@ -118,6 +122,7 @@ func c04Eval(coll c04Coll, form c04Form, varName string, withElse bool, rootKind
 }
 
 func runC04(r *Run, replay *Case) {
+	defer flushPages(r)
 	colls := c04Colls()
 	forms := c04Forms()
 	if replay != nil {
